@@ -80,7 +80,11 @@ func RebalanceWeight(clusters []*WeightCluster, initialWeight int) {
 			}
 			cl.Weight = propWeight
 		} else {
-			cl.Weight = int(weight)
+			propWeight := int(weight)
+			if propWeight == 0 && cl.Weight > 0 {
+				propWeight = 1
+			}
+			cl.Weight = propWeight
 		}
 	}
 }
